@@ -19,6 +19,7 @@ import (
 	pscrape "github.com/prometheus/prometheus/scrape"
 
 	"kvassverif/core"
+	"kvassverif/sched"
 	"kvassverif/cyc"
 	"kvassverif/cycle"
 	"kvassverif/disco"
@@ -390,7 +391,7 @@ func (w *World) ReleaseProbes() {
 					t = x
 				}
 			}
-			time.Sleep(time.Millisecond) // distinct instants: retry timers must not coincide
+			sched.Sleep(time.Millisecond) // distinct instants: retry timers must not coincide
 			if t == nil || !t.Healthy {
 				w.PN.Release(p, "connect", nil)
 				w.E.Fault("probe_fail")
@@ -447,7 +448,7 @@ func (w *World) Close() {
 			w.PN.Release(p, "connect", nil)
 		}
 		w.Net.AbortAll()
-		time.Sleep(w.SC.Period + 6*time.Second)
+		sched.Sleep(w.SC.Period + 6*time.Second)
 		synctest.Wait()
 	}
 	verifhook.SetSalt(0)
